@@ -337,6 +337,7 @@ fn dup_owned(fd: RawFd) -> OwnedFd {
 
 /// Invoke the operation on the real frontend endpoint.
 pub fn invoke(fe: &mut Frontend, op: &FeOp, res: &Resources) -> Result<FeRet, String> {
+    crate::crash::set_op(format!("Frontend::{op:?}"));
     let e = |e: vhost::Error| format!("{e:?}");
     match op {
         FeOp::GetFeatures => fe.get_features().map(FeRet::U64).map_err(e),
